@@ -21,13 +21,14 @@ import (
 // C08Case: one request, its outcome class, and where the controllers'
 // progress is placed relative to the handler's "create" and "watch" steps.
 type C08Case struct {
-	Kind      string `json:"kind"`          // set | rollback
-	Sync      bool   `json:"sync"`          // Set only
-	Outcome   string `json:"outcome"`       // ok | invalid | refuse | rb-notfound | rb-forbidden | rb-of-rollback
-	Code      int    `json:"code"`          // refusal code for outcome refuse
-	StepsGap1 int    `json:"stepsGap1"`     // controller steps while the handler is held between Create and Watch (-1: run to completion)
-	StepsGap2 int    `json:"stepsGap2"`     // steps while held between Watch (registered) and the first receive (-1: to completion, -2: not held)
-	Raw       bool   `json:"raw,omitempty"` // with a second hold: the store's Watch feeds the held handler directly (an unbuffered channel nobody reads meanwhile)
+	Kind      string `json:"kind"`              // set | rollback
+	Sync      bool   `json:"sync"`              // Set only
+	Outcome   string `json:"outcome"`           // ok | invalid | refuse | rb-notfound | rb-forbidden | rb-of-rollback
+	Code      int    `json:"code"`              // refusal code for outcome refuse
+	StepsGap1 int    `json:"stepsGap1"`         // controller steps while the handler is held between Create and Watch (-1: run to completion)
+	StepsGap2 int    `json:"stepsGap2"`         // steps while held between Watch (registered) and the first receive (-1: to completion, -2: not held)
+	Raw       bool   `json:"raw,omitempty"`     // with a second hold: the store's Watch feeds the held handler directly (an unbuffered channel nobody reads meanwhile)
+	LeadExt   string `json:"leadExt,omitempty"` // an extension the handlers have no use for, in front of the strategy extension
 	Multi     bool   `json:"multi"`
 	Extra     int    `json:"extra,omitempty"` // Multi: further operations (bit mask over c08Extra), some naming the SAME path on both targets
 	Offline   bool   `json:"offline"`         // target offline (async only)
@@ -41,6 +42,7 @@ func genC08(rt *rapid.T) C08Case {
 	} else {
 		c.Sync = rapid.IntRange(0, 1).Draw(rt, "sync") == 1
 		c.Outcome = []string{"ok", "ok", "invalid", "refuse", "ok", "ok", "invalid", "refuse", "unrenderable"}[rapid.IntRange(0, 8).Draw(rt, "outcome")]
+		c.LeadExt = []string{"", "", "", "arbitration", "history", "registered"}[rapid.IntRange(0, 5).Draw(rt, "leadext")]
 		c.Multi = rapid.IntRange(0, 2).Draw(rt, "multi") == 0
 		if c.Multi {
 			c.Extra = int(rapid.Uint64Range(0, 63).Draw(rt, "extra"))
@@ -142,7 +144,7 @@ func runC08(c C08Case, x *vstat.Ctx) error {
 		case "refuse":
 			val = model.Str(fmt.Sprintf("%s%d", fakes.RefusePrefix, c.Code))
 		}
-		spec = SetSpec{Sync: c.Sync, Ops: []model.Op{{Kind: "update", Target: "t1", Path: model.Parse("/a/c/d"), Val: &val}, {Kind: "delete", Target: "t1", Path: model.Parse("/a/bc")}}}
+		spec = SetSpec{Sync: c.Sync, LeadExt: c.LeadExt, Ops: []model.Op{{Kind: "update", Target: "t1", Path: model.Parse("/a/c/d"), Val: &val}, {Kind: "delete", Target: "t1", Path: model.Parse("/a/bc")}}}
 		if c.Outcome == "unrenderable" {
 			// a value the handlers accept and store but that no JSON document can hold: the configuration cannot
 			// be shown to the model, the change must be reported failed (and answered), not retried for ever
@@ -269,6 +271,11 @@ func runC08(c C08Case, x *vstat.Ctx) error {
 		return vstat.Violf("the transaction did not reach the awaited stage: %v", tx.Status.State)
 	}
 	// truthfulness
+	if c.Kind == "set" {
+		if logged := tx.TransactionStrategy.Synchronicity == configapi.TransactionStrategy_SYNCHRONOUS; logged != c.Sync {
+			return vstat.Violf("the request asked for synchronous=%v (extension 111%s) but its transaction was logged with synchronous=%v: the caller is answered at the wrong stage", c.Sync, map[bool]string{true: ", behind a leading " + c.LeadExt + " extension", false: ""}[c.LeadExt != ""], logged)
+		}
+	}
 	if call.Err == nil {
 		sync := tx.TransactionStrategy.Synchronicity == configapi.TransactionStrategy_SYNCHRONOUS
 		st := tx.Status.State
